@@ -119,6 +119,7 @@ type HarnessResult struct {
 	SolverErrs []string
 	PathBudget bool
 	SamplePath []string
+	Witnesses  []*Witness
 }
 
 type RunOpts struct {
@@ -131,6 +132,8 @@ type RunOpts struct {
 	timeout  int
 	verbose  bool
 	prefix   []Decision // run a single path (replay)
+	witnesses int       // number of completed paths per harness for which a model is extracted
+	fixed    *modelFile // all inputs fixed to these values (concrete re-execution)
 }
 
 func defaultOpts() RunOpts {
@@ -205,8 +208,15 @@ func runHarness(p *Program, name string, o RunOpts) *HarnessResult {
 				sols[0].ts = ts
 				sols[0].Reset()
 				ex := newExec(p, ts, sols, name, pre, o)
+				mu.Lock()
+				ex.wantWitness = len(res.Witnesses) < o.witnesses
+				mu.Unlock()
+				ex.fixed = o.fixed
 				end := ex.runPath(fn)
 				mu.Lock()
+				if ex.witness != nil && len(res.Witnesses) < o.witnesses {
+					res.Witnesses = append(res.Witnesses, ex.witness)
+				}
 				res.Paths++
 				res.Ends[end.kind.String()]++
 				if end.kind == endUnsupported || end.kind == endBudget || end.kind == endEngine {
@@ -304,7 +314,7 @@ func newExec(p *Program, ts *TermStore, sols []*Solver, harness string, prefix [
 		globals: map[*ssa.Global]*Value{}, locks: map[*Value]*lockState{}, onces: map[*Value]bool{}, avals: map[*Value]Value{},
 		inputSeen: map[string]bool{}, maxSteps: o.maxSteps, reached: map[string]bool{}, asserted: map[string]int{},
 		fnEntered: map[*ssa.Function]bool{}, finfo: map[*ssa.Function]*fnInfo{}, icept: map[*ssa.Function]interceptFn{},
-		counters: map[string]int{},
+		counters: map[string]int{}, obsTerms: map[string]*Term{},
 	}
 	return ex
 }
@@ -358,5 +368,37 @@ func (ex *Exec) runPath(fn *ssa.Function) (end pathEnd) {
 	ex.w.panicsAreFindings = true
 	ex.steps = 0
 	ex.call(nil, fn, nil, nil, nil)
+	ex.makeWitness()
 	return pathEnd{kind: endOK}
+}
+
+// makeWitness extracts a model of a completed path (translator validation input).
+func (ex *Exec) makeWitness() {
+	if !ex.wantWitness || len(ex.findings) > 0 {
+		return
+	}
+	if ex.check(ex.ts.True, true) != Sat {
+		return
+	}
+	m, arrs := ex.extractModel()
+	w := &Witness{Harness: ex.harness, Model: m, Arrays: arrs, Observes: map[string]uint64{}, Decision: len(ex.trace)}
+	var ts []*Term
+	for _, l := range ex.obsOrder {
+		ts = append(ts, ex.obsTerms[l])
+	}
+	if len(ts) > 0 {
+		vals := ex.sol.GetValues(ts)
+		for i, l := range ex.obsOrder {
+			w.Observes[l] = vals[i]
+			if ex.obsTerms[l].w > 0 && ex.obsTerms[l].w < 64 {
+				// native side records int(v): sign- or zero-extension is the harness's business; compare low bits
+				w.Observes[l] = vals[i]
+			}
+		}
+	}
+	ex.sol.Pop()
+	for l := range ex.reached {
+		w.Reached = append(w.Reached, l)
+	}
+	ex.witness = w
 }
